@@ -440,6 +440,10 @@ def run_splot(ctx):
             one("boolean", g.model(n, kinds=KINDS, abstract=False, ctc_depth=2, name_classes=SPLOT_NAMES), n >= 2)
         for label, m in ctc_stream(ctx):
             one(label, m, True)
+        # a feature called like the clause separator
+        one("separator-name", dict(root=spec.F("or"), ctcs=[("c0", T("or"))]), True)
+        one("separator-name", gen.free_model([OP("IMPLIES", T("or"), T("A")), OP("OR", T("OR"), OP("NOT", T("or")))],
+                                             names=("or", "OR", "A")), True)
     finally:
         sc.close()
 
